@@ -25,7 +25,8 @@ REQUIRED = ["op.occupancy_at_time", "op.state_at_time", "op.occupancies_at_time_
             "op.goal_reached", "op.eq", "op.hash", "op.copy", "op.deepcopy", "op.pickle", "op.str", "op.draw",
             "op.export_xml", "op.export_pb", "state-without-orientation", "goal-lanelets.dict",
             "goal-lanelets.defaultdict", "default-constructed-obstacle", "fixture", "light-with-successors",
-            "goal-check.scenario-state-with-vx-vy-orientation", "goal_reached.scenario-trajectory"]
+            "goal-check.scenario-state-with-vx-vy-orientation", "goal_reached.scenario-trajectory",
+            "uncertain-regions-under-off-centre-shape"]
 ASSUMPTIONS = ["private caches are not compared (C11 covers them where observable)",
                "an exception raised by a read-only operation is not judged here (totality is C19 / C04 / C08 business)"]
 SHARDS = {"quick": 4, "thorough": 16}
@@ -229,6 +230,19 @@ def run(ctx):
         sc.add_objects(DynamicObstacle(nid + 3, ObstacleType.CAR, shape, st.InitialState(
             time_step=0, position=np.array([9.0, 9.0]), orientation=1.0)))
         ctx.feature("default-constructed-obstacle")
+        # uncertain positions of every region kind under an OFF-CENTRE obstacle shape (the region objects stored in the
+        # states are what an occupancy computation must not write into)
+        from commonroad.common.util import AngleInterval
+        from commonroad.geometry.shape import Polygon
+        off = Polygon(np.array([[0.0, 0.0], [5.0, 0.0], [5.0, 1.0], [1.0, 1.0], [1.0, 3.0], [0.0, 3.0]]))
+        regions = [Circle(0.75, np.array([10.0, 0.5])), Rectangle(1.0, 0.5, np.array([12.0, 1.0]), 0.2),
+                   Polygon(np.array([[14.0, 0.0], [15.0, 0.0], [15.0, 1.0]]))]
+        states = [st.KSState(time_step=1 + k, position=regions[k], orientation=(0.1 * k if k != 1 else AngleInterval(
+            -0.2, 0.3)), velocity=3.0, steering_angle=0.0) for k in range(3)]
+        sc.add_objects(DynamicObstacle(nid + 5, ObstacleType.TRUCK, off, st.InitialState(
+            time_step=0, position=Circle(0.5, np.array([8.0, 0.0])), orientation=0.0, velocity=3.0),
+            TrajectoryPrediction(Trajectory(1, states), off)))
+        ctx.feature("uncertain-regions-under-off-centre-shape")
         # custom states with position, orientation AND both velocity components (what the XML reader builds)
         states = [st.CustomState(time_step=1 + k, position=np.array([2.0 + k, -3.0]), orientation=0.2 * k, velocity=4.0,
                                  velocity_y=1.0 + k) for k in range(3)]
